@@ -509,3 +509,59 @@ func Verif_C05_Pairs_Set_C()    { c05Pairs("set", 9, 99) }
 func Verif_C05_Pairs_ZSet_A()   { c05Pairs("zset", 0, 5) }
 func Verif_C05_Pairs_ZSet_B()   { c05Pairs("zset", 5, 9) }
 func Verif_C05_Pairs_ZSet_C()   { c05Pairs("zset", 9, 99) }
+
+// ---- background actors keep running after any command, failed ones included ----
+//
+// After one command of any outcome (success, wrong type, bad arguments, refused option) issued on its
+// own, every actor that has to wait for commands to finish — the state copy that snapshots and log
+// rewrites take, a flush, the expiry cycle, another write — still runs to completion: a command that
+// fails must not leave a lock held or an "in progress" mark set.
+func Verif_C05_ActorsRunAfterAnyCommand() {
+	s := verifServer()
+	verifPreset(s, 0, "k", "x")
+	verifPreset(s, 0, "l", []string{"a"})
+	cmds := [][]string{
+		{"INCR", "k"},                // not an integer
+		{"LPUSH", "k", "v"},          // wrong type
+		{"SET", "k"},                 // too few arguments
+		{"HSET", "k", "f"},           // odd field/value list
+		{"RENAME", "nokey", "other"}, // no such key
+		{"SET", "k", "v", "NX"},      // refused by the option
+		{"EXPIRE", "k", "abc"},       // bad number
+		{"LPOP", "l", "zz"},          // bad count
+		{"SET", "k", "v"},            // succeeds
+		{"DEL", "k"},                 // succeeds
+		{"GET", "l"},                 // read of the wrong type
+		{"NOSUCHCOMMAND", "k"},       // unknown command
+	}
+	c05Run(s, cmds[vr.Choose("cmd", len(cmds))]...)
+	actor := vr.Choose("actor", 5)
+	crashed := ""
+	func() {
+		defer func() {
+			if x := recover(); x != nil {
+				crashed = fmt.Sprint(x)
+			}
+		}()
+		vr.Go(func() {
+			switch actor {
+			case 0:
+				_ = s.getState()
+			case 1:
+				s.Flush(-1)
+			case 2:
+				_ = s.evictKeysWithExpiredTTL(verifCtx(0))
+			case 3:
+				c05Run(s, "SET", "k2", "v2")
+			case 4:
+				c05Run(s, "GET", "k")
+			}
+		})
+		vr.Join()
+	}()
+	vr.Assert(!strings.Contains(crashed, "deadlock"), "C05.after_any_command.nodeadlock")
+	if !strings.Contains(crashed, "deadlock") {
+		vr.Assert(crashed == "", "C05.after_any_command.nopanic")
+	}
+	vr.Reach("end")
+}
